@@ -45,6 +45,7 @@ def check(run):
         run.rule("C01-slots", "a v-table cell belongs to one method parameter: a slot taken in a class is reserved in all its transitive bases and marked used in all covariant classes", floor=4)
         crules.reserve_rules(run, "C01-slots", ast)
         crules.alloc_rules(run, "C01-slots", ast)
+        crules.mark_rules(run, "C01-slots", ast)
         run.rule("C01-model", "augment_methods: run-time methods/definitions mirror the registrations one to one (function pointers, parameter classes from the own id lists in order, error cells, (method, parameter) pairs)", floor=8)
         crules.model_rules(run, "C01-model", ast)
         crules.idem_rules(run, "C01-model", ast)
